@@ -33,6 +33,9 @@ class Unsupported(Exception):
 class LoopSpec:
     inv: Callable  # (S, a, v, k) -> dict[str, Bool]
     unroll: int | None = None
+    # proof structure for the step of an arbitrary iteration k (evaluated in the state at the end of the body):
+    hints: Callable | None = None  # (S, a, v, k) -> dict[str, Bool]: proved in order (obligations), then assumed
+    facts: Callable | None = None  # (S, a, v, k) -> list[Bool]: instances of library lemmas (assumed; proved in lemmas.py)
 
 
 @dataclass
@@ -567,6 +570,14 @@ class Engine:
                                  and _mutable_kind(body_st.env[t])}
             for s, flow in self.exec_block(node.body, body_st):
                 if flow in (None, "continue"):
+                    ns_end = self._ns(s.env, _n=n, _k=k, _entry=entry, _at=at)
+                    if spec.facts is not None:
+                        for f_ in spec.facts(SYM, a, ns_end, k):
+                            s.assume(f_)
+                    if spec.hints is not None:
+                        for name, cl in spec.hints(SYM, a, ns_end, k).items():
+                            self.oblige(s, f"loop{ordinal}-hint[{name}]", cl, node.lineno, "assert")
+                            s.assume(cl)
                     for name, cl in inv(s, k + 1).items():
                         self.oblige(s, f"loop{ordinal}-step[{name}]", cl, node.lineno, "inv-step")
                 elif flow == "break":
@@ -1580,6 +1591,15 @@ class Engine:
             st.assume(z3.ForAll([j], z3.Implies(z3.And(0 <= j, j < n, cj),
                                                 z3.Select(ty.arr(r.t), f_cnt(C, j)) == z3.substitute(e.t, (ic, j))),
                                 patterns=[f_cnt(C, j), z3.Select(C, j)]))
+            if src:  # the same, stated with the condition itself and triggered from the source side (xs[t] is a term)
+                st.assume(z3.ForAll([j], z3.Implies(
+                    z3.And(0 <= j, j < n, z3.substitute(cond, (ic, j))),
+                    z3.And(z3.Select(C, j), z3.Select(ty.arr(r.t), f_cnt(C, j)) == z3.substitute(e.t, (ic, j)),
+                           0 <= f_cnt(C, j), f_cnt(C, j) < ty.len(r.t))), patterns=src))
+            # an element that passes lands inside the result (instance of lemma L1c with len = cnt(C, n))
+            st.assume(z3.ForAll([j], z3.Implies(z3.And(0 <= j, j < n, cj),
+                                                z3.And(0 <= f_cnt(C, j), f_cnt(C, j) < ty.len(r.t))),
+                                patterns=[f_cnt(C, j), z3.Select(C, j)]))
             # every element of the result comes from a source position that passed the filter (ghost inverse `src_of`)
             src_of = z3.Function(fresh_name("srcof"), z3.IntSort(), z3.IntSort())
             t_ = z3.Int(fresh_name("ct"))
@@ -1672,7 +1692,7 @@ class Engine:
         ej = z3.substitute(et, *ren)
         st.assume(z3.ForAll([k], z3.Select(ty.mem(r.t), k) == z3.Exists(js, z3.And(in_range, ej == k)),
                             patterns=[z3.Select(ty.mem(r.t), k)]))
-        st.assume(z3.ForAll(js, z3.Implies(in_range, z3.Select(ty.mem(r.t), ej))))
+        st.assume(z3.ForAll(js, z3.Implies(in_range, z3.Select(ty.mem(r.t), ej)), patterns=[z3.Select(ty.mem(r.t), ej)]))
         st.assume(ty.card(r.t) >= 0)
         st.assume((ty.card(r.t) == 0) == z3.Not(z3.Exists(js, in_range)))
         return r
@@ -1729,7 +1749,9 @@ class Engine:
         if c.requires:
             for name, cl in c.requires(SYM, a).items():
                 self.oblige(st, f"call:{c.name}:requires[{name}]", cl, node.lineno, "pre")
-                st.assume(cl)
+                if not _contains_quantifier_term(cl):
+                    st.assume(cl)  # (a quantified precondition follows from what is known; re-assuming it only adds
+                    #                 instantiation work - and, with inferred triggers, matching loops)
         for exc, condfn in c.raises:
             self.raise_if(st, condfn(SYM, a), exc, node.lineno)
         rty = c.returns or TNone
@@ -1985,7 +2007,10 @@ class Engine:
         occurs = z3.Exists([i], z3.And(0 <= i, i < n, z3.Select(sq.ty.arr(sq.t), i) == k))
         st.assume(z3.ForAll([k], z3.Select(ty.mem(r.t), k) == occurs, patterns=[z3.Select(ty.mem(r.t), k)]))
         si = z3.Select(sq.ty.arr(sq.t), i)
-        st.assume(z3.ForAll([i], z3.Implies(z3.And(0 <= i, i < n), z3.Select(ty.mem(r.t), si)), patterns=[si]))
+        # (the forward direction is triggered only where membership of seq[i] is asked about: triggering it on every
+        #  seq[i] together with the skolemised existential above is a matching loop)
+        st.assume(z3.ForAll([i], z3.Implies(z3.And(0 <= i, i < n), z3.Select(ty.mem(r.t), si)),
+                            patterns=[z3.Select(ty.mem(r.t), si)]))
         st.assume(z3.And(ty.card(r.t) >= 0, (ty.card(r.t) == 0) == (n == 0)))
         return r
 
@@ -2241,13 +2266,46 @@ def _select_subterms(t, j):
     out, seen, todo = [], set(), [t]
     while todo:
         x = todo.pop()
-        if x.get_id() in seen or not z3.is_app(x):
+        if x.get_id() in seen:
             continue
         seen.add(x.get_id())
-        if z3.is_select(x) and x.arg(1).eq(j) and not _mentions(x.arg(0), j):
+        if z3.is_quantifier(x):
+            todo.append(x.body())
+            continue
+        if not z3.is_app(x):
+            continue
+        if z3.is_select(x) and x.arg(1).eq(j) and not _mentions(x.arg(0), j) and not _has_bound_var(x):
             out.append(x)
         todo.extend(x.children())
     return out
+
+
+def _contains_quantifier_term(t) -> bool:
+    stack, seen = [t], set()
+    while stack:
+        x = stack.pop()
+        if x.get_id() in seen:
+            continue
+        seen.add(x.get_id())
+        if z3.is_quantifier(x):
+            return True
+        if z3.is_app(x):
+            stack.extend(x.children())
+    return False
+
+
+def _has_bound_var(t) -> bool:
+    stack, seen = [t], set()
+    while stack:
+        x = stack.pop()
+        if x.get_id() in seen:
+            continue
+        seen.add(x.get_id())
+        if z3.is_var(x):
+            return True
+        if z3.is_app(x):
+            stack.extend(x.children())
+    return False
 
 
 def _mentions(t, c) -> bool:
